@@ -65,6 +65,11 @@ def drive(ctx):
     for k in range(2000 if q else 40000):          # plain microsecond fractions of seconds: 4..6 digits
         f = "".join(rnd.choice("0123456789") for _ in range(4 + k % 3))
         rf.append(("valid", "%sT%s%s%sS" % (("P", "P1Y2M3D")[k % 2], rnd.choice(("0", "1", "6", "59")), ".,"[k % 2], f)))
+    # fractions of seconds whose rounding carries into the next second / digit (7 to 9 digits)
+    for f in ("9999996", "9999999", "99999951", "999999999", "0000006", "1234567", "8999999", "9999994", "0999999", "00000051",
+              "59999996", "499999951"):
+        for head in ("PT0", "PT59", "P1DT23H59M59", "PT1"):
+            rf.append(("valid", "%s%s%sS" % (head, ".,"[len(f) % 2], f)))
     rf = ctx.mine(rf)
     # the property's ill-formed classes
     for _ in range(20 if q else 200):
@@ -101,5 +106,17 @@ def drive(ctx):
             ivs.append(("start/duration", s1, d))
             ivs.append(("duration/end", d, s1))
     ivs = ctx.mine(ivs)
+    # end-points without an offset, read in a zone with DST (tz option): the computed end-point is found on the wall
+    # clock of that zone, across the transition
+    tzs = [{"n": "Europe/Paris", "fo": 0}, {"n": "America/New_York", "fo": 0}, {"n": "Australia/Lord_Howe", "fo": 0}]
+    naive = ["2021-03-27T04:00:00", "2021-03-29T04:00:00", "2021-10-30T12:30:00", "2021-11-01T00:30:00", "2021-03-14T01:30:00",
+             "2021-11-07T03:15:00", "2021-04-04T01:45:00", "2021-10-03T03:00:00.5"]
+    # canonical component ranges only: for PT36H "start.add(duration)" has two readings (36 elapsed hours, or one
+    # wall-clock day and 12 hours: the two parser back-ends build the Duration differently), cf. C04
+    tdurs = ["P1DT3H", "P2DT1H30M", "PT23H", "P1D", "P1MT2H", "P10DT12H", "PT2H30M", "P1Y1DT1H"]
+    tz_ivs = [(k2, s1, d, z) for z in tzs for s1 in naive for d in tdurs for k2 in ("start/duration", "duration/end")]
+    for (kind, s1, d, z) in (pick(rnd, ctx.mine(tz_ivs), 25) if q else ctx.mine(tz_ivs)):
+        t1, t2 = (s1, d) if kind == "start/duration" else (d, s1)
+        ctx.emit("iv_parse", {"kind": kind, "t1": cps(t1), "t2": cps(t2), "tz": z})
     for (kind, t1, t2) in (pick(rnd, ivs, 60) if q else ivs):
         ctx.emit("iv_parse", {"kind": kind, "t1": cps(t1), "t2": cps(t2)})
